@@ -166,6 +166,9 @@ Mutants(v, R, K) ==
      LET ps == v.pairs IN
      {VDict(RemoveAt(ps, i)) : i \in DOMAIN ps}
      \cup {VDict(Append(ps, KV(x, VNone))) : x \in {y \in K : ~DictHas(ps, y)}}
+     \* two extra keys at once (of different kinds when K mixes kinds)
+     \cup {VDict(ps \o <<KV(xy[1], VNone), KV(xy[2], VNone)>>) :
+              xy \in {p \in K \X K : p[1] # p[2] /\ ~VEq(p[1], p[2]) /\ ~DictHas(ps, p[1]) /\ ~DictHas(ps, p[2])}}
      \cup UNION {{VDict([ps EXCEPT ![i] = KV(ps[i].key, m)]) : m \in Mutants(ps[i].val, R, K)} : i \in DOMAIN ps}
    ELSE {})
 
